@@ -414,4 +414,29 @@ theorem filter_takes_reserved (s : State) (ns name : String) (nodes : List Strin
     simp only
     exact ⟨trivial, fun h => absurd h (by simp [Out.bad]), fun _ => ⟨trivial, rfl⟩⟩
 
+/-- the quota gate: a deployment / pool pod with a reserving policy that owns nothing, while its app already uses its
+    whole quota, is refused with "size-limit" ("wait for releasing"); Filter changes nothing -/
+theorem filter_at_quota_waits (s : State) (ns name : String) (nodes : List String) (ch : Choice) (pod : Pod)
+    (hp : Tbl.get s.pods (ns, name) = some pod) (hw : pod.wants = true) (hr : pod.ranges = [])
+    (hown : ipsOfKey s (keyOf pod) = []) (hdp : (keyOf pod).isDp = true) (hpol : policyOf pod ≠ 0)
+    (hquota : (getDpReplicas s (keyOf pod)).1 ≤ usedCountG s (keyOf pod) (getDpReplicas s (keyOf pod)).2) :
+    filter s ns name nodes ch = (s, Out.err "size-limit") := by
+  have hsup : supportReserve (keyOf pod) (policyOf pod) = true := by unfold supportReserve; simp [hdp]
+  have hav : getAvailableSubnet s (keyOf pod) (policyOf pod) (getDpReplicas s (keyOf pod)).1 (getDpReplicas s (keyOf pod)).2 [] =
+      .error "size-limit" := by
+    rw [getAvailableSubnet_eq_G]
+    unfold getAvailableSubnetG
+    rw [reserveLookupApplies_eq, gen_sizeLimit]
+    have h0 : (policyOf pod != 0) = true := by simpa using hpol
+    have hq : usedCountG s (keyOf pod) (getDpReplicas s (keyOf pod)).2 ≥ (getDpReplicas s (keyOf pod)).1 := hquota
+    simp [hdp, h0, hq]
+  unfold filter
+  simp only [hp, hw, Bool.not_true, Bool.false_eq_true, if_false]
+  rw [getSubnet_fresh s pod ch hr hown]
+  unfold getSubnetCont
+  simp only [hsup, hdp, if_true, hav, Bool.not_true]
+  have hf : ¬ (policyOf pod ≠ 0 ∧ false = true) := by simp
+  simp only [if_neg hf]
+  rfl
+
 end Galaxy.Plugin.C02
